@@ -11,8 +11,8 @@
    delta = 2*p - center_2x is the doubled offset of p from the centre; `rdot ux uy delta` is twice the true signed
    distance of p from the radial line with unit normal u, so the constant 3 below is 1.5 px. *)
 From EG Require Import Base.Prelude Model.Geometry Model.Style Model.Sectormodel
-  Proofs.Geometry Proofs.Sectormodel Proofs.Sectorreal.
-From Coq Require Import Reals Lra Sorting.Sorted.
+  Proofs.Geometry Proofs.Sectormodel Proofs.Sectorreal Proofs.Sectorangle.
+From Coq Require Import Reals Lra Lia Sorting.Sorted.
 
 (* ---- integer part, all normals and operations ------------------------------------------- *)
 Theorem C18_sector_points_spec : forall s,
@@ -55,6 +55,23 @@ Theorem C18_arc_points_row_major_in_bbox : forall a,
   rect_ok (ar_bbox a) ->
   StronglySorted lt_yx (ar_points a) /\ (forall p, In p (ar_points a) -> contains (ar_bbox a) p = true).
 Proof. intros a H. split; [apply arc_points_sorted, H | intros p; apply arc_points_in_bbox, H]. Qed.
+
+(* K18_tiny_sweep_opposite_side is also true (det = 0) for exactly opposite rounded normals - sweeps just below
+   180 deg; nothing is wrong there: the Intersection is exactly one closed half plane *)
+Theorem C18_sector_opposite_normals_half_plane : forall ps dl,
+  ps_op ps = OpIntersection -> ps_left ps = pneg (ps_right ps) ->
+  ps_contains ps dl = (0 <=? sm_odist (ps_right ps) dl).
+Proof. exact sector_opposite_normals_half_plane. Qed.
+
+(* a sector of 180 deg or more (operation Union), exactly: the circle minus the open integer cone that lies
+   strictly beyond BOTH radial lines - centre-near points included *)
+Theorem C18_sector_union_exact : forall s p,
+  ps_op (se_ps s) = OpUnion ->
+  se_contains s p =
+  sc_contains (se_to_circle s) p &&
+  negb ((0 <? sm_odist (ps_left (se_ps s)) (sm_delta (se_center_2x s) p)) &&
+        (sm_odist (ps_right (se_ps s)) (sm_delta (se_center_2x s) p) <? 0)).
+Proof. exact sector_union_exact. Qed.
 
 (* ---- "inside the swept angle" read as RAYS (not lines), with the recorded finding excluded ----------
    K18_tiny_sweep_opposite_side ps = (operation is Intersection and det(right normal, left normal) <= 0): the
@@ -153,6 +170,111 @@ Theorem C18_arc_covers_sweep : forall (a : arc) (p : point) (lx ly rx ry eps : R
     (3 <= rdot rx ry (sm_delta (sc_center_2x (ar_to_circle a)) p)) ->
   In p (ar_points a).
 Proof. exact arc_covers_sweep. Qed.
+
+(* ---- the same with ANGLES: Coq's sin / cos, the named trig hypothesis, the true sector --------------------
+   Definitions (Proofs/Sectorangle.v), start / sweep in degrees as handed to Sector::new / Arc::new:
+     trig_hypothesis ps start sweep eps   what PlaneSector::new is assumed to return for (start, sweep): operation
+          EntirePlane iff |sweep| >= 360 (up to f32 rounding: only from 359.999 on), Intersection below 179.999,
+          Union from 180.001; right / left normal within eps (componentwise) of 1024 (-sin t, cos t) for
+          t = min(start, start+sweep) resp. t + |sweep|.  `trig_check` of harness/src/suites/c18_sector.rs is its
+          executable counterpart (f64), run by p_trig_deg / p_trig_pairs / p_trig_rand / p_trig_stride / p_trig_bits
+          on both builds: measured eps over EVERY f32 angle in +-1440 deg: 2.118 (f32), 9.858 (fixed_point).
+     rays_proper ps      det > 0 of the two rays (Intersection: negation of K18_tiny_sweep_opposite_side; Union: for
+          the complement cone, or both normals equal); tested by trig_check outside the resolution bands.
+     sweep_unambiguous   |sweep| not in [179.999, 180.001) or [359.999, 360), where the f32 comparisons go either way.
+     true_sector start sweep qx qy   (qx,qy) = rho (cos t, sin t), rho >= 0, t between the rays (all for >= 360).
+     near_true_sector start sweep d  some point of the true sector is within 3 (doubled units = 1.5 px) of d.
+     disc_strictly_inside start sweep d   every point within 1.5 px of d is off both radial lines, inside the sweep.
+   delta below is the doubled offset 2p - center_2x; screen coordinates (y down). *)
+Theorem C18_sector_ideal_sector_is_true_sector : forall start sweep qx qy,
+  ideal_sector start sweep qx qy <-> true_sector start sweep qx qy.
+Proof. exact ideal_sector_is_true_sector. Qed.
+
+(* every sector point is within 1.5 px of the true swept cone, for the eps of BOTH builds (eps <= 10) *)
+Theorem C18_sector_near_cone : forall (s : sector) (p : point) (start sweep eps : R),
+  trig_hypothesis (se_ps s) start sweep eps -> sweep_unambiguous sweep -> rays_proper (se_ps s) ->
+  0 <= eps <= 10 -> (0 <= se_d s <= 128)%Z ->
+  se_contains s p = true -> near_true_sector start sweep (sm_delta (se_center_2x s) p).
+Proof. exact sector_near_cone. Qed.
+
+(* every circle point whose 1.5-px neighbourhood is strictly inside the sweep is a sector point *)
+Theorem C18_sector_covers_cone : forall (s : sector) (p : point) (start sweep eps : R),
+  trig_hypothesis (se_ps s) start sweep eps -> sweep_unambiguous sweep -> rays_proper (se_ps s) ->
+  0 <= eps <= 10 -> (0 <= se_d s <= 128)%Z ->
+  sc_contains (se_to_circle s) p = true ->
+  disc_strictly_inside start sweep (sm_delta (se_center_2x s) p) ->
+  se_contains s p = true.
+Proof. exact sector_covers_cone. Qed.
+
+Theorem C18_arc_near_cone : forall (a : arc) (p : point) (start sweep eps : R),
+  trig_hypothesis (ar_ps a) start sweep eps -> sweep_unambiguous sweep -> rays_proper (ar_ps a) ->
+  0 <= eps <= 10 -> (0 <= ar_d a <= 128)%Z ->
+  In p (ar_points a) -> near_true_sector start sweep (sm_delta (sc_center_2x (ar_to_circle a)) p).
+Proof. exact arc_near_cone. Qed.
+
+Theorem C18_arc_covers_cone : forall (a : arc) (p : point) (start sweep eps : R),
+  trig_hypothesis (ar_ps a) start sweep eps -> sweep_unambiguous sweep -> rays_proper (ar_ps a) ->
+  0 <= eps <= 10 -> (0 <= ar_d a <= 128)%Z ->
+  In p (points (ar_bbox a)) ->
+  sc_contains (ar_to_circle a) p = true -> sc_contains (sc_offset (ar_to_circle a) (-1)) p = false ->
+  disc_strictly_inside start sweep (sm_delta (sc_center_2x (ar_to_circle a)) p) ->
+  In p (ar_points a).
+Proof. exact arc_covers_cone. Qed.
+
+(* instantiated at the validated accuracies: eps = 3 (f32 / micromath build), eps = 10 (fixed_point build) *)
+Theorem C18_sector_near_cone_f32 : forall (s : sector) (p : point) (start sweep : R),
+  trig_hypothesis (se_ps s) start sweep 3 -> sweep_unambiguous sweep -> rays_proper (se_ps s) ->
+  (0 <= se_d s <= 128)%Z ->
+  se_contains s p = true -> near_true_sector start sweep (sm_delta (se_center_2x s) p).
+Proof. intros s p start sweep H1 H2 H3. apply (sector_near_cone s p start sweep 3 H1 H2 H3). lra. Qed.
+
+Theorem C18_sector_near_cone_fixed_point : forall (s : sector) (p : point) (start sweep : R),
+  trig_hypothesis (se_ps s) start sweep 10 -> sweep_unambiguous sweep -> rays_proper (se_ps s) ->
+  (0 <= se_d s <= 128)%Z ->
+  se_contains s p = true -> near_true_sector start sweep (sm_delta (se_center_2x s) p).
+Proof. intros s p start sweep H1 H2 H3. apply (sector_near_cone s p start sweep 10 H1 H2 H3). lra. Qed.
+
+Theorem C18_sector_covers_cone_f32 : forall (s : sector) (p : point) (start sweep : R),
+  trig_hypothesis (se_ps s) start sweep 3 -> sweep_unambiguous sweep -> rays_proper (se_ps s) ->
+  (0 <= se_d s <= 128)%Z -> sc_contains (se_to_circle s) p = true ->
+  disc_strictly_inside start sweep (sm_delta (se_center_2x s) p) -> se_contains s p = true.
+Proof. intros s p start sweep H1 H2 H3. apply (sector_covers_cone s p start sweep 3 H1 H2 H3). lra. Qed.
+
+Theorem C18_sector_covers_cone_fixed_point : forall (s : sector) (p : point) (start sweep : R),
+  trig_hypothesis (se_ps s) start sweep 10 -> sweep_unambiguous sweep -> rays_proper (se_ps s) ->
+  (0 <= se_d s <= 128)%Z -> sc_contains (se_to_circle s) p = true ->
+  disc_strictly_inside start sweep (sm_delta (se_center_2x s) p) -> se_contains s p = true.
+Proof. intros s p start sweep H1 H2 H3. apply (sector_covers_cone s p start sweep 10 H1 H2 H3). lra. Qed.
+
+(* non-vacuity: the quadrant sector 0 deg .. 90 deg with its exact normals satisfies the hypotheses (eps = 0),
+   and its point (7,7) (delta = (5,5) for d = 10) is within 1.5 px of the true sector *)
+Example C18_sector_trig_hypothesis_example :
+  let ps := PS (P (-1024) 0) (P 0 1024) OpIntersection in
+  trig_hypothesis ps 0 90 0 /\ rays_proper ps /\ sweep_unambiguous 90 /\
+  near_true_sector 0 90 (sm_delta (se_center_2x (Sec (P 0 0) 10 ps)) (P 7 7)).
+Proof.
+  cbv zeta.
+  assert (A90 : Rabs 90 = 90) by (apply Rabs_pos_eq; lra).
+  assert (Hrs : ray_start 0 90 = 0) by (unfold ray_start; apply Rmin_left; lra).
+  assert (HT : trig_hypothesis (PS (P (-1024) 0) (P 0 1024) OpIntersection) 0 90 0).
+  { unfold trig_hypothesis. cbn [ps_op ps_left ps_right]. rewrite A90, Hrs.
+    split; [intros; lra|]. split; [intros _; discriminate|]. intros _.
+    assert (R0 : rad 0 = 0) by (unfold rad; field).
+    assert (R90 : rad 0 + rad 90 = PI / 2) by (unfold rad; field).
+    rewrite R90, R0. unfold normal_close. cbn [px py]. rewrite sin_0, cos_0, sin_PI2, cos_PI2.
+    repeat split; try (intros; reflexivity || lra).
+    - replace (0 + 1024 * 0) with 0 by ring. rewrite Rabs_R0. lra.
+    - replace (1024 - 1024 * 1) with 0 by ring. rewrite Rabs_R0. lra.
+    - replace (-1024 + 1024 * 1) with 0 by ring. rewrite Rabs_R0. lra.
+    - replace (0 - 1024 * 0) with 0 by ring. rewrite Rabs_R0. lra. }
+  assert (HP : rays_proper (PS (P (-1024) 0) (P 0 1024) OpIntersection)) by (vm_compute; reflexivity).
+  assert (HU : sweep_unambiguous 90) by (unfold sweep_unambiguous; rewrite A90; split; left; lra).
+  split; [exact HT|]. split; [exact HP|]. split; [exact HU|].
+  apply (C18_sector_near_cone (Sec (P 0 0) 10 (PS (P (-1024) 0) (P 0 1024) OpIntersection)) (P 7 7) 0 90 0 HT HU HP).
+  - lra.
+  - cbn [se_d]. lia.
+  - vm_compute. reflexivity.
+Qed.
 
 Local Close Scope R_scope.
 
